@@ -52,7 +52,7 @@ CHECKS = {
         "listing) against a reference entitlement predicate defined independently of the pipeline; TLC exhausts configurations x "
         "requests for OnlyEntitled, RefusedOtherwise, EntitledServed, ListingExact, UntrustedHeadersInert, AddrIsTrue; 7 negative "
         "controls. Binding: for each generated configuration (3 key entries over 18 shapes x client roles, seeded sample in quick) "
-        "real YAML -> config.ReadFile -> server.New -> all 1440 requests through Handler(); status, calls reaching the fake token, "
+        "real YAML -> config.ReadFile -> server.New -> all 4032 requests through Handler(); status, calls reaching the fake token, "
         "listing and audited client.ip compared with the specification's outcome.",
    note="Trusted: httptest request construction (TLS state, RemoteAddr, headers), fake token registered via token.Openers as the "
         "observation of 'token touched'. Policy/OPA mode and bearer tokens are not covered.",
